@@ -11,10 +11,12 @@ PROPERTIES = {}
 
 
 def K(id, props, crate, anchor, module, harness, kind, fns, contract="", tier="quick", timeout=300,
-      attrs=None, quick_props=None, zflags=None):
+      attrs=None, quick_props=None, zflags=None, unwindset=None):
+    """unwindset: [(regex on the demangled function containing a loop, bound)] -- per-loop bounds added to the harness'
+    #[kani::unwind(n)] (looked up in the goto binary at run time, see tools/check.py discover_unwindset)."""
     OBLIGATIONS.append(dict(id=id, props=props, crate=crate, anchor=anchor, module=module, harness=harness,
                             kind=kind, fns=fns, contract=contract, tier=tier, timeout=timeout, backend="kani",
-                            attrs=attrs or [], quick_props=quick_props, zflags=zflags or []))
+                            attrs=attrs or [], quick_props=quick_props, zflags=zflags or [], unwindset=unwindset or []))
 
 
 def V(id, props, anchor, fns, spec, contract="", tier="quick", timeout=120, quick_props=None):
